@@ -100,8 +100,11 @@ def _caps(rng, specs, spacing, first):
         if t is None:
             start_f = need + 2 + (0 if first == "tight" else 300)
         else:
-            start_f = prev_start_f + 3 + need + {"tight": 0, "plus1": 1, "sparse": 200}[spacing]
+            start_f = prev_start_f + 3 + need + (spacing if isinstance(spacing, (int, float)) else
+                                                 {"tight": 0, "plus1": 1, "sparse": 200}[spacing])
         dur_f = 20 if spacing != "sparse" else 60
+        if isinstance(spacing, (int, float)):
+            dur_f = need + 3 + spacing          # the cue lasts until the next one starts
         caps.append({"s": int(start_f * FRAME_US) + 1, "e": int((start_f + dur_f) * FRAME_US), "lines": lines})
         prev_start_f = start_f
         t = start_f
@@ -126,6 +129,13 @@ def inputs(ctx):
                                  for k in range(ncaps)]
                         ins.append({"id": "g%d" % n, "caps": _caps(rng, specs, spacing, first)})
                         n += 1
+    # runs of back-to-back cues with less than a frame, a frame, two frames to spare between one load
+    # line and the next (a shift of one cue must not pile up along the run)
+    for slack in (-2.75, -2.25, -1.5, -1, -0.5, 0, 0.5):
+        for ncaps in (4, 6):
+            specs = [[_line(rng, 20 + 3 * (k % 3), "short")] for k in range(ncaps)]
+            ins.append({"id": "b%d" % n, "caps": _caps(rng, specs, slack, "late")})
+            n += 1
     # the same line of text in several captions (a speaker's name, a refrain) at the same place from
     # the top while the captions have different numbers of rows, and the same caption twice
     for speaker in ("JOHN:", "- Yes.", "MAN 2:"):
